@@ -1,0 +1,18 @@
+//go:build verif
+
+// Verification hook (build tag "verif" only): accessor for the unexported gateway merge that computes
+// MergedGateway.VerifiedCertificateReferences. No behaviour change; absent from normal builds.
+
+package model
+
+import "istio.io/istio/pkg/config"
+
+// VerifC11MergeGateways runs mergeGateways over Gateway configs that are all taken to apply to the proxy
+// (no service instances, legacy selector semantics, as ps.mergeGateways builds them for selector-less gateways).
+func VerifC11MergeGateways(gateways []config.Config, proxy *Proxy, ps *PushContext) *MergedGateway {
+	gw := make([]gatewayWithInstances, 0, len(gateways))
+	for _, g := range gateways {
+		gw = append(gw, gatewayWithInstances{gateway: g, legacyGatewaySelector: true, instances: proxy.ServiceTargets})
+	}
+	return mergeGateways(gw, proxy, ps)
+}
